@@ -17,6 +17,7 @@ CLAIMED = {
          'to_ical succeeds and from_ical returns the tree (api_roundtrip, relative to the decoder fixpoints of C03). '
          'Recorded findings are decide witnesses refuting the full statements (absolute TRIGGER without VALUE, mixed-zone '
          'list, one-element list, VALUE ignored on parse for BINARY/BOOLEAN).',
+         'Component.add is regenerated from the source by tools/py2lean.py and proved equal to the hand model addProp (body_component_add). '
          'Trusted: Lean kernel; tools/extract.py (cross-checked against the live tables each run); hand model of '
          'Component._encode/add and of the value constructors tied by correspondence (every RFC name x value kind x '
          'parameter shape through add, item assignment, setters, both providers); the RFC 5545 name/type table is the '
@@ -44,6 +45,7 @@ CLAIMED = {
          'expander that is a function of the typed parts computes the same occurrences from the decoded text as from '
          'the supplied rule. The remaining assumption (dateutil.rrulestr is such a function) is checked by comparing '
          'rrulestr(text) with rrule(**parts). Domain-boundary behaviours (text parts holding , ; =) are witnesses.',
+         'vRecur.parse_type/from_ical/to_ical are regenerated from the source by tools/py2lean.py and proved equal to the hand model (body_vRecur_*). '
          'Trusted: Lean kernel; tools/extract.py (canonical_order, types); hand model of vRecur tied by correspondence '
          '(76 k cases quick, 1 M thorough); part codecs are the C03 models; dateutil is external.',
          'DESIGN.md 6/C19'),
@@ -57,6 +59,7 @@ CLAIMED = {
          'decoders and time-zone construction are abstract parameters (their own laws are C03 / C12). The model of the '
          'line loop is tied to cal.py by correspondence on fixtures, generated and mutated calendars with the real '
          'decoders supplying the decode table; types_map, datetime names, lenient classes are regenerated from source.',
+         'Component.from_ical (the whole loop) is regenerated from the source by tools/py2lean.py on every run and proved equal to the hand model pstep/parseText (body_from_ical ...). '
          'Trusted: Lean kernel; tools/extract.py; hand model of Component.from_ical/add/to_ical tied by correspondence; '
          'decoders enter as a table computed by the real code; ASCII names; findings: value-unescape-nontext, '
          'param-escape-hazard, bare-cr-in-line, vtimezone-validated-only-at-matching-end.',
@@ -84,6 +87,7 @@ CLAIMED = {
          'exactly one component. Exception classes raised inside CPython/library code, recursion and CPU time are '
          'runtime facts outside any model: the oracle searches them on the implementation (random bytes, token soup, '
          'mutated fixtures, nesting to 64, hostile TZIDs, malformed VTIMEZONEs, overflowing values, both providers).',
+         'The regenerated from_ical loop is proved to raise ValueError only (body_raises_only_valueError, body_fails_iff). '
          'Trusted: Lean kernel; hand model of the from_ical loop tied by correspondence on the same hostile inputs; '
          'partial by nature for "raises nothing else / terminates" (search only).',
          'DESIGN.md 6/C04'),
@@ -95,6 +99,7 @@ CLAIMED = {
          'values leaves every step of the parser unchanged (case_invariant, via forProperty and the generated '
          'uname-dispatch flags: a regression of the case fix breaks the proof); parse_invariant combines both. '
          'str-vs-bytes is UTF-8 decoding, outside the model, decided by the oracle under both providers.',
+         'The regenerated from_ical loop is the object of parse_invariant (body_parse_invariant). '
          'Trusted: Lean kernel; tools/extract.py; hand models of uFOLD.sub / NEWLINE.split / the line loop tied by '
          'correspondence (incl. exhaustive strings <= 6 over {CR LF SP HT a}); parameter-name case via parts() '
          'upper-casing (concrete examples, correspondence); ASCII case mapping.',
@@ -180,6 +185,7 @@ CLAIMED = {
          'None); equality with any mapping of the same folded content in any order and case; canonsort = priority names '
          'in declared order then the rest sorted, invariant under permutation of the keys. upper is abstract with the '
          'single law upper(upper k) = upper k, checked for every code point of the running interpreter.',
+         "The ten delegating CaselessDict methods and their keyword defaults are regenerated from the source by tools/py2lean.py and proved equal to the hand model's steps (body_cd_*). "
          'Trusted: Lean kernel; hand model of every CaselessDict method (overridden and inherited) tied by correspondence '
          'against live CaselessDict, Parameters and Component objects (all sequences <= 2, sampled 3, random 30-step); '
          'str.upper idempotence (checked exhaustively each run).',
@@ -194,6 +200,7 @@ CLAIMED = {
          'Idempotence/purity are structural in the model (the serialiser is a function returning text) and are checked '
          'on the implementation by the oracle (bytes twice, tree before/after) and by subprocess runs under different '
          'PYTHONHASHSEED values.',
+         'property_items, content_line, content_lines, to_ical are regenerated from the source by tools/py2lean.py and proved equal to the hand model (body_property_items ...). '
          'Trusted: Lean kernel; tools/extract.py; hand model of property_items / content_line / to_ical tied by '
          'correspondence on fixtures and generated trees (sorted on and off); the class of a component is taken from its '
          'name through ComponentFactory; the interpreter\'s hashing itself is not modelled.',
@@ -206,6 +213,7 @@ CLAIMED = {
          'the kind, a property value, the number or the multiset of subcomponents differs (eq_multiset: equality iff '
          'names equal, property maps equal and the subcomponent lists match one-to-one). Non-components, key case and '
          'copy mechanics (deepcopy, pickle, reparse) are decided by the oracle on the implementation.',
+         'Component._walk/walk are regenerated from the source by tools/py2lean.py and proved equal to the hand model (body_walk). '
          'Trusted: Lean kernel; hand models of _walk and __eq__ tied by correspondence (generated trees, permutations, '
          'perturbations, both providers); value equality instantiated structurally in the driver and validated by '
          'correspondence; pickle/deepcopy are interpreter mechanisms checked by the oracle only.',
@@ -228,6 +236,7 @@ CLAIMED = {
          'DURATION, date/date-time mismatch, floating/zoned mismatch, time-of-day DURATION on a date, wrong-typed entry) '
          'is reported by start, end and duration alike; Journal statements. add() can create a both-present state '
          '(witness), so exclusivity is stated for setter/deleter histories and "reported" for arbitrary states.',
+         '_get_start_end_duration, start, end, duration, is_date are regenerated from the source by tools/py2lean.py and proved equal to the hand model (body_get_start_end_duration ...). '
          'Trusted: Lean kernel; hand model of the descriptors and getters tied by correspondence (all op sequences <= 2 '
          'over every accessor x argument kind x Event/Todo/Journal, random 3-8 step histories, parsed property '
          'combinations, both providers); zone offsets are inputs of the model (taken from the provider per value).',
@@ -240,6 +249,7 @@ CLAIMED = {
          'not depend on start/end and are always computed; errors are exactly ComponentStartMissing/ComponentEndMissing '
          'when a needed anchor is absent. + is exact elapsed time (pytz/UTC/fixed offsets); zoneinfo wall-clock '
          'arithmetic across a DST change is characterised (wallclock_exact_iff) and is a recorded finding.',
+         'Alarms._add/_repeat/times/add_component and the setters are regenerated from the source by tools/py2lean.py and proved equal to the hand model (11 body_* theorems). '
          'Trusted: Lean kernel; hand model of alarms.py tied by correspondence (events/todos x start/end kinds x alarm '
          'lists, API-built and parsed, both providers, instants clustered at DST changes); start/end are inputs here '
          '(their derivation is C16); provider localize tabulated per case.',
@@ -250,6 +260,7 @@ CLAIMED = {
          'trigger moves the reported trigger; the active list is a sublist of all times; a later acknowledgement never '
          'activates an alarm (alarm-level and component-level); the only error is LocalTimezoneMissing and only for '
          'floating/date triggers without a local time zone; DTSTAMP vs X-MOZ-LASTACK/SNOOZE wiring.',
+         'AlarmTime.acknowledged/trigger/is_active and Alarms.active are regenerated from the source by tools/py2lean.py and proved equal to the hand model (body_alarmtime_*). '
          'Trusted: Lean kernel; hand model of AlarmTime/Alarms tied by correspondence (every ordering-with-ties of '
          'trigger, alarm ack, component ack, snooze, each possibly absent x trigger kind x local tz x Thunderbird, API '
          'and parsed, both providers).',
